@@ -122,7 +122,38 @@ func mutate(rc *RC, s string, n int, keepOuter bool) string {
 		}
 		i := starts[ch.Int("mutate", len(starts))]
 		st := toks[i].(xml.StartElement)
-		switch ch.Int("mutate", 9) {
+		switch ch.Int("mutate", 11) {
+		case 9, 10: // text content (or an attribute value) cut short, with a character missing or doubled
+			var texts []int
+			for j, t := range toks {
+				if cd, ok := t.(xml.CharData); ok && len(strings.TrimSpace(string(cd))) > 0 {
+					texts = append(texts, j)
+				}
+			}
+			perturb := func(v string) string {
+				if len(v) == 0 {
+					return v
+				}
+				k := ch.Int("mutate", len(v))
+				switch ch.Int("mutate", 3) {
+				case 0:
+					return v[:k]
+				case 1:
+					return v[:k] + v[k+1:]
+				}
+				return v[:k+1] + v[k:]
+			}
+			if len(texts) > 0 && ch.Chance("mutate", 2, 3) {
+				j := texts[ch.Int("mutate", len(texts))]
+				toks[j] = xml.CharData(perturb(string(toks[j].(xml.CharData))))
+			} else if len(st.Attr) > 0 {
+				j := ch.Int("mutate", len(st.Attr))
+				if st.Attr[j].Name.Local != "xmlns" && st.Attr[j].Name.Space != "xmlns" {
+					st.Attr = append([]xml.Attr{}, st.Attr...)
+					st.Attr[j].Value = perturb(st.Attr[j].Value)
+					toks[i] = st
+				}
+			}
 		case 0: // drop an attribute
 			if len(st.Attr) > 0 {
 				j := ch.Int("mutate", len(st.Attr))
